@@ -16,6 +16,18 @@ theorem feq_ne {a b : ℝ} (h : a ≠ b) : feq a b = false := by
 
 
 /-- `binary.py:Binary.randomise` -/
+noncomputable def gen_binaryUnif (e u : ℝ) : ℝ := (u * ((Real.exp e) + (1 : ℝ)))
+theorem gen_binaryUnif_eq (e u : ℝ)  : gen_binaryUnif e u = u * (Real.exp e + 1) := by
+  unfold gen_binaryUnif
+  rfl
+
+/-- `binary.py:Binary.randomise` -/
+noncomputable def gen_binaryFlipLo (e d : ℝ) : ℝ := ((Real.exp e) + d)
+theorem gen_binaryFlipLo_eq (e d : ℝ)  : gen_binaryFlipLo e d = Real.exp e + d := by
+  unfold gen_binaryFlipLo
+  rfl
+
+/-- `binary.py:Binary.randomise` -/
 noncomputable def gen_binaryFlipHi (x : ℝ) : ℝ := x
 theorem gen_binaryFlipHi_eq (x : ℝ)  : gen_binaryFlipHi x = x := by
   unfold gen_binaryFlipHi
@@ -146,5 +158,61 @@ noncomputable def gen_catProb (e ut bf s : ℝ) : ℝ := (Real.exp ((((-e) * ut)
 theorem gen_catProb_eq (e ut bf s : ℝ)  : gen_catProb e ut bf s = Real.exp (-e * ut / bf / s) := by
   unfold gen_catProb
   rfl
+
+
+/-- `Binary.randomise` as coded (pieces read from the AST) IS the model's `binaryRandomise` -/
+theorem binaryRandomise_eq (e d u : ℝ) (ind : Bool) :
+    binaryRandomise e d ind u =
+      if gen_binaryFlipLo e d < gen_binaryFlipHi (gen_binaryUnif e u) then !ind else ind := by
+  simp only [binaryRandomise, gen_binaryFlipLo, gen_binaryFlipHi, gen_binaryUnif, transc_exp]
+  rfl
+
+/-- `Geometric.randomise` as coded IS the model's `geomRandomise` (sensitivity > 0) -/
+theorem geomRandomise_eq (e : ℝ) (s : ℕ) (hs : 0 < s) (val : ℤ) (u : ℝ) :
+    ((geomRandomise e s val u : ℤ) : ℝ) =
+      if gen_geomTestLo (gen_geomUnif u (gen_geomScale e s)) < gen_geomTestHi then
+        gen_geomReturn val gen_geomSgnNeg (gen_geomUnif u (gen_geomScale e s)) (gen_geomScale e s)
+      else gen_geomReturn val gen_geomSgnPos (gen_geomUnif u (gen_geomScale e s)) (gen_geomScale e s) := by
+  simp only [geomRandomise, hs, ↓reduceIte, geomNoise, gen_geomScale, gen_geomUnif, gen_geomTestLo, gen_geomTestHi,
+    gen_geomReturn, gen_geomSgnNeg, gen_geomSgnPos, transc_exp, transc_log, transc_floor]
+  by_cases h : (u - 1 / 2) * (1 + Real.exp (-e / (s : ℝ))) < 0
+  · simp only [h, ↓reduceIte, neg_one_mul]
+    push_cast
+    ring
+  · simp only [h, ↓reduceIte, one_mul]
+    push_cast
+    ring
+
+/-- the floor argument inside the returned expression is the anchored one -/
+theorem geomReturn_floorArg (val : ℤ) (sg v sc : ℝ) :
+    gen_geomReturn val sg v sc = (val : ℝ) + sg * ((⌊gen_geomFloorArg sg v sc⌋ : ℤ) : ℝ) := by
+  simp only [gen_geomReturn, gen_geomFloorArg]
+
+/-- the scale of `Exponential._find_probabilities` as coded IS the model's `expScale` -/
+theorem expScale_eq (e s : ℝ) (mono : Bool) :
+    expScale e s mono =
+      if gen_expScaleTestLo < gen_expScaleTestHi e s then some (gen_expScale e s (if mono then 1 else 0)) else none := by
+  cases mono <;> simp [expScale, gen_expScale, gen_expScaleTestLo, gen_expScaleTestHi] <;> norm_num
+
+theorem pafScale_eq (e s : ℝ) (mono : Bool) :
+    expScale e s mono =
+      if gen_pafScaleTestLo < gen_pafScaleTestHi e s then some (gen_pafScale e s (if mono then 1 else 0)) else none := by
+  cases mono <;> simp [expScale, gen_pafScale, gen_pafScaleTestLo, gen_pafScaleTestHi] <;> norm_num
+
+/-- finite scale, no measure: the un-normalised weights as coded -/
+theorem expWeights_eq (sc tol : ℝ) (utils : List ℝ) :
+    expWeights (some sc) tol utils [] = utils.map (fun x => gen_expWeight sc (x - pyMax utils)) := by
+  simp only [expWeights, gen_expWeight, transc_exp, List.isEmpty_nil, ↓reduceIte]
+
+theorem pafLogProbs_eq (sc : ℝ) (utils : List ℝ) :
+    pafLogProbs (some sc) utils = utils.map (fun x => some (gen_pafLogProb sc (x - pyMax utils))) := by
+  simp only [pafLogProbs, gen_pafLogProb]
+
+/-- `_get_prob` as coded IS the model's `catProb` -/
+theorem catProb_eq (e s : ℝ) (utl : List ((Nat × Nat) × ℝ)) (bal : Bool) (a b : Nat) :
+    catProb e utl s bal a b =
+      if a = b then gen_catDiag
+      else gen_catProb e (catUtility utl a b) (if bal then gen_catBalTrue else gen_catBalFalse) s := by
+  simp only [catProb, gen_catDiag, gen_catProb, gen_catBalTrue, gen_catBalFalse, transc_exp]
 
 end DPL.Gen.C01
